@@ -150,7 +150,16 @@ func ParseResolve(text string, sys resolve.System) (*resolve.Graph, error) {
 	}
 
 	// Create edges.
-	sources := make([]resolve.NodeID, len(g.Nodes)+1)
+	// sources is indexed by indentation level. Rows that create no node
+	// (label references and errors) may be indented deeper than the number
+	// of nodes, so size it by the deepest row.
+	maxDepth := 0
+	for _, r := range s.rows {
+		if r.depth > maxDepth {
+			maxDepth = r.depth
+		}
+	}
+	sources := make([]resolve.NodeID, maxDepth+1)
 	for i, r := range s.rows {
 		// Record the current index as the source at this indentation level.
 		sources[r.depth] = nodes[i]
@@ -171,7 +180,7 @@ func ParseResolve(text string, sys resolve.System) (*resolve.Graph, error) {
 				Version:     r.requirement,
 			}
 			if err := g.AddError(src, vk, r.err); err != nil {
-				return nil, fmt.Errorf("cannot add an error to %s", g.Nodes[src].Version)
+				return nil, fmt.Errorf("line %d: cannot add an error: %v", r.line, err)
 			}
 			continue
 		}
@@ -182,7 +191,7 @@ func ParseResolve(text string, sys resolve.System) (*resolve.Graph, error) {
 		}
 
 		if err := g.AddEdge(src, dst, r.requirement, r.dt); err != nil {
-			return nil, fmt.Errorf("cannot create edge from %s to %s", g.Nodes[src].Version, g.Nodes[dst].Version)
+			return nil, fmt.Errorf("line %d: cannot create edge: %v", r.line, err)
 		}
 	}
 
